@@ -188,6 +188,20 @@ def do_run(ids, tier, all_checks, props_extra):
       rc, out = sh(["patch", "-p1", "-s", "--no-backup-if-mismatch", "-i",
                     os.path.join(d, "patch.diff")],
                    cwd=tmp)
+      fuzzy = ""
+      if rc:
+        # the context of a hunk was rewritten by a later fix: commit: the
+        # change itself may still fit (removed lines present): fuzz 3
+        shutil.rmtree(os.path.join(tmp, "audiolazy"))
+        shutil.copytree("/repo/audiolazy", os.path.join(tmp, "audiolazy"),
+                        ignore=shutil.ignore_patterns("__pycache__"))
+        rc, out = sh(["patch", "-p1", "-s", "-F3", "--no-backup-if-mismatch",
+                      "-i", os.path.join(d, "patch.diff")], cwd=tmp)
+        fuzzy = " (applied to HEAD with fuzz 3)"
+        if rc:
+          shutil.rmtree(os.path.join(tmp, "audiolazy"))
+          shutil.copytree("/repo/audiolazy", os.path.join(tmp, "audiolazy"),
+                          ignore=shutil.ignore_patterns("__pycache__"))
       if rc:
         # a later fix: commit rewrote the lines: run it differentially on the
         # newest commit it applies to (caught = it adds a key to what that
@@ -203,7 +217,7 @@ def do_run(ids, tier, all_checks, props_extra):
       for p in props:
         rc, keys = run_check(p, tmp, tier, SEED)
         rows.append((sid, p, {0: "silent", 1: "caught"}.get(rc, "rc=%d" % rc),
-                     "; ".join(keys)[:200]))
+                     "; ".join(keys)[:200] + fuzzy))
         print("%-8s %-4s %-7s %s" % rows[-1], flush=True)
         if RECORD and p == meta["property"]:
           was = meta.get("caught")
@@ -233,6 +247,16 @@ def export_tree(commit, dest):
 
 def key_names(keys):
   return sorted(set(k.split()[0] for k in keys))
+
+
+def observed(keys):
+  out = {}
+  for k in keys:
+    name = k.split()[0]
+    for tok in k.split():
+      if tok.startswith("observed="):
+        out[name] = int(tok[9:])
+  return out
 
 
 def rerun_on_older_base(d, prop, tier, seeded=False):
@@ -266,6 +290,12 @@ def rerun_on_older_base(d, prop, tier, seeded=False):
         # (by full key name: the seeded change is the only difference between
         # the two trees, so a key the base tree does not report is its doing)
         new = [k for k in key_names(keys) if k not in key_names(bkeys)]
+        # ... or it reports under a key of the base tree far more often (the
+        # base's own defect and the seeded one share a key, e.g. wrong-output)
+        bcount, count = observed(bkeys), observed(keys)
+        new += ["%s (%d times, base alone %d)" % (k, n, bcount[k])
+                for k, n in sorted(count.items())
+                if k in bcount and n > 2 * bcount[k] + 20]
         if rc == 1 and new:
           return "caught  on-base=%s new keys: %s" % (commit,
                                                       "; ".join(new)[:200])
